@@ -347,6 +347,31 @@ LAUNCH_FORMS = ["launch plain(d);", "launch (|q| { q <- 'lambda'; })(d);", "laun
                 "launch (|| { launch h.send(d); })();", "fn mk() { let cap = 'cap'; return |q| { q <- cap; }; } launch mk()(d);"]
 
 
+# a callback run by a native makes the fiber's stack grow (deep recursion with many locals) and a collection follows: a native that still holds
+# a view of the old stack (its remaining arguments, the elements it iterates) reads freed memory. Every callback-running native, the growth
+# happening at the first / a later callback; oracle: no crash and the same output as the run in which the callback does not recurse
+CG_PRE = ("fn deep(n) { " + " ".join("let a%d = n + %d;" % (i, i) for i in range(40)) + " if n == 0 { print('@@gc full'); let junk = [[1], 'j' + n.str(), (2, 3)]; return junk.len(); } return deep(n - 1) + a39 - a39; }\n"
+          "let calls = 0;\nfn grow() { calls += 1; if calls == AT { GROW } return calls; }\n"
+          "class G { init(t) { self.t = t; } str() { grow(); return 'G' + self.t; } }\n")
+CG_DRIVERS = [("print", "print(G('1'), 'second', ['third'], G('4'), ('fifth', 5));"), ("interp", "print('${G('1')}|${'b' + 'c'}|${[G('3')]}|${G('4')}');"),
+              ("list_str", "print([G('1'), 'x', [G('3')], {'k': G('4')}].str());"), ("map_str", "print({'a': G('1'), 'b': [2]}.str().len() > 0, (G('1'), 'y', G('3')).str());"),
+              ("each", "[['a'], ['b'], ['c']].iter().each(|x| { grow(); print(x); });"), ("map_list", "print([['a'], ['b'], ['c']].iter().map(|x| { grow(); return [x, 'm']; }).list());"),
+              ("filter_list", "print([['a'], ['b'], ['c']].iter().filter(|x| { grow(); return true; }).list());"), ("reduce", "print([['a'], ['b'], ['c']].iter().reduce([], |acc, x| { grow(); acc.push(x); return acc; }));"),
+              ("all_any", "print([['a'], ['b']].iter().all(|x| { grow(); return x.len() == 1; }), [['a'], ['b']].iter().any(|x| { grow(); return x.len() == 2; }));"),
+              ("sort", "print([[3], [1], [2], [5], [4]].sort(|a, b| { grow(); return a[0] - b[0]; }));"), ("into", "print([['a'], ['b']].iter().map(|x| { grow(); return x; }).into(List.collect), [['a'], ['b']].iter().map(|x| { grow(); return x; }).into(Tuple.collect));"),
+              ("zip_chain", "print([['a'], ['b']].iter().zip([['c'], ['d']].iter().map(|x| { grow(); return x; })).chain([(['e'], ['f'])].iter()).list());"),
+              ("for_lazy", "for v in [['a'], ['b'], ['c']].iter().map(|x| { grow(); return [x]; }) { print(v); }"), ("first_last_len", "let it = [['a'], ['b']].iter().map(|x| { grow(); return x; }); print(it.first(), [['a'], ['b']].iter().map(|x| { grow(); return x; }).last());"),
+              ("str_join_eq", "print([G('1'), G('2')] == [G('1'), G('2')], [G('1'), 'k'].has('k'), (G('1'), 's').index('s'));"), ("call_args", "fn five(a, b, c, d, e) { return [a, b, c, d, e]; } print(five(['a'], grow(), ['c'], grow(), ['e']));"),
+              ("init_args", "class P { init(a, b, c) { self.a = a; self.b = b; self.c = c; grow(); } } let p = P(['a'], grow(), ['c']); print(p.a, p.b, p.c);"),
+              ("method_in_callback", "class M { init() { self.v = ['mv']; } run(xs) { return xs.iter().map(|x| { grow(); return [x, self.v]; }).list(); } } print(M().run([['a'], ['b']]));"),
+              ("launch_args", "let d = chan(2); fn w(d, a, b) { grow(); d <- [a, b]; } launch w(d, ['a'], ['b']); print(<- d);"), ("error_in_grown", "try { [['a'], ['b']].iter().each(|x| { grow(); raise Error('after ' + x[0]); }); } catch e { print(e.message, e.backTrace.len() > 0); }")]
+
+
+def cbgrow_source(di, at, grows):
+    pre = CG_PRE.replace("AT", str(at)).replace("GROW", "deep(60);" if grows else "")
+    return pre + "fn run() { %s }\nrun();\nprint('calls', calls > 0);\nprint('done');\n" % CG_DRIVERS[di][1]
+
+
 def cberr_source(driver, site, at, place):
     d = dict(CB_DRIVERS)[driver]
     st = dict(CB_SITES)[site]
@@ -432,6 +457,9 @@ class C16(Check):
                 for mi in range(len(muts)):
                     for k in (0, 1, 3):
                         yield ("mutiter", coll, di, mi, k)
+        for di in range(len(CG_DRIVERS)):
+            for at in (1, 2, 3):
+                yield ("cbgrow", di, at)
         for i in range(len(LAUNCH_FORMS)):
             for j in range(len(LAUNCH_FORMS)):
                 yield ("launchkinds", i, j)
@@ -480,6 +508,8 @@ class C16(Check):
             return PRE + "print('M'); " + cberr_source(spec[1], spec[2], spec[3], "same")
         if k == "catchcls":
             return PRE + "print('M'); " + catchcls_source(*spec[1:])
+        if k == "cbgrow":
+            return PRE + "print('M'); " + cbgrow_source(spec[1], spec[2], True)
         if k == "launchkinds":
             return PRE + "print('M'); " + LAUNCH_PRE + LAUNCH_FORMS[spec[1]] + " print(<- d); " + (LAUNCH_FORMS[spec[2]] + " print(<- d); " if spec[2] != spec[1] else "") + "print('done');"
         if k == "sortcmp":
@@ -496,6 +526,9 @@ class C16(Check):
         return "%s | %s" % (spec[0], self.source(spec).split("\n", 1)[1][:400])
 
     def build(self, spec):
+        if spec[0] == "cbgrow":
+            return [{"src": PRE + "print('M'); " + cbgrow_source(spec[1], spec[2], True), "step_limit": 5000000, "alloc": "poison"},
+                    {"src": PRE + "print('M'); " + cbgrow_source(spec[1], spec[2], False), "step_limit": 5000000}], None
         if spec[0] == "cberr":
             return [{"src": PRE + "print('M'); " + cberr_source(spec[1], spec[2], spec[3], pl), "step_limit": 5000000} for pl in CB_PLACE], None
         case = {"src": self.source(spec)}
@@ -508,6 +541,15 @@ class C16(Check):
     def judge(self, spec, ctx, rs):
         if spec[0] == "cberr":
             return self.judge_cberr(spec, rs)
+        if spec[0] == "cbgrow":
+            for r in rs:
+                v = self.judge_one(spec, r)
+                if not v.ok:
+                    return v
+            if (rs[0].get("class"), rs[0].get("out")) != (rs[1].get("class"), rs[1].get("out")):
+                return Verdict(False, True, "cbgrow:differs", "the output changes when a callback makes the stack grow: grown %r / plain %r (stderr %r)" % (
+                    (rs[0].get("class"), rs[0].get("out", "")[-200:]), (rs[1].get("class"), rs[1].get("out", "")[-200:]), rs[0].get("err", "")[-200:]))
+            return Verdict(True, True, "cbgrow:ok")
         return self.judge_one(spec, rs[0])
 
     def judge_cberr(self, spec, rs):
@@ -547,7 +589,7 @@ class C16(Check):
         if c == "compile_error":
             return Verdict(True, False, "%s:compile_error" % spec[0])
         if c == "step_limit":
-            if spec[0] in ("catchcls", "cberr", "mutiter", "sortcmp", "launchkinds"):
+            if spec[0] in ("catchcls", "cberr", "mutiter", "sortcmp", "launchkinds", "cbgrow"):
                 return Verdict(False, True, "%s:hang" % spec[0], "a loop free program did not end within %d steps" % 5000000)
             return Verdict(True, False, "%s:step_limit" % spec[0])
         if r.get("mismatch", 0) and False:
